@@ -189,6 +189,12 @@ static int do_act(const char *a)
   if(a[0] == 'c') {
     int id = atoi(a + 1);
     if(id >= 0 && id < nws && ws[id].live && ws[id].watch) {
+      if(ws[id].kind == K_SIG) {
+        /* cancelling the last watcher of a signal that is pending in the kernel restores the
+         * default action and unblocks it, which terminates the process: not done */
+        sigset_t pend; sigpending(&pend);
+        if(sigismember(&pend, (int)ws[id].x)) return 1;
+      }
       ws[id].live = 0;
       tickit_watch_cancel(T, ws[id].watch);
     }
@@ -252,7 +258,7 @@ static void loop_case(void)
   /* everything the instance allocated must be gone (the dropped timer of defect #22) */
   if(__sanitizer_get_current_allocated_bytes() > heap_before) OUT("LEAK ");
   if(outn && out[outn - 1] == ' ') out[outn - 1] = 0;
-  if(!quiet) printf("%s\n", outn ? out : "-");
+  if(!quiet) { printf("%s\n", outn ? out : "-"); fflush(stdout); }  /* the runner counts lines to find a crashing case */
 }
 
 static int loop_main(void)
